@@ -21,10 +21,13 @@ open XlModel
 def getCellValueM (s : Sheet) (ms : List Grid.MObj) (c r : Nat) : Val :=
   getCellValue s (Grid.anchor ms c r).1 (Grid.anchor ms c r).2
 
-/-- the merge list after `GetMergeCells`: `mergeOverlapCells` ran on the worksheet itself
-(regenerated fact `getMergeCellsInPlace`), it now runs on a copy -/
+/-- the stored merge list after `GetMergeCells`: `mergeOverlapCells` ran on the worksheet itself
+(regenerated fact `getMergeCellsInPlace`); it now runs on a copy -/
 def getMergeCellsState (ms : List Grid.MObj) : List Grid.MObj :=
   if Facts.C04.getMergeCellsInPlace then Grid.mergeOverlapCells ms else ms
+
+/-- the ranges `GetMergeCells` reports: the normal form of the stored list -/
+def getMergeCellsResult (ms : List Grid.MObj) : List Grid.MObj := Grid.mergeOverlapCells ms
 
 /-- a merged range whose `Ref` and cached rect are the same rectangle -/
 def mrange (c1 r1 c2 r2 : Nat) : Grid.MObj := ⟨⟨c1, r1, c2, r2⟩, ⟨c1, r1, c2, r2⟩⟩
